@@ -541,7 +541,7 @@ func parseRequestHeader(c *Client, r *Request) error {
 }
 
 func parseRequestCookie(c *Client, r *Request) error {
-	if len(c.Cookies) > 0 || r.RetryAttempt <= 0 {
+	if len(c.Cookies) > 0 && r.RetryAttempt <= 0 { // once: r.Cookies is carried over to the retries
 		r.Cookies = append(r.Cookies, c.Cookies...)
 	}
 
